@@ -39,12 +39,12 @@ ARENA_FAMILIES = {
         fns=["strcpyfld_s", "strcpyfldin_s", "strcpyfldout_s"],
         quick=dict(N=6, K=3, BosMode=0), thorough=dict(N=8, K=4, BosMode=1), props={"C01", "C02", "C03", "C04", "C05", "C06", "C07", "C08"}),
     "query2": dict(
-        fns=["strcmp_s", "strcasecmp_s", "strcoll_s", "strcmpfld_s", "wcscmp_s", "wcsncmp_s", "wcsicmp_s", "strnatcmp_s", "strnatcasecmp_s", "wcsnatcmp_s", "wcsnaticmp_s", "memcmp_s", "memcmp16_s", "memcmp32_s", "wmemcmp_s",
+        fns=["strcmp_s", "strcasecmp_s", "strcoll_s", "strcmpfld_s", "wcscmp_s", "wcsncmp_s", "wcsicmp_s", "wcscoll_s", "strnatcmp_s", "strnatcasecmp_s", "wcsnatcmp_s", "wcsnaticmp_s", "memcmp_s", "memcmp16_s", "memcmp32_s", "wmemcmp_s",
              "strstr_s", "strcasestr_s", "wcsstr_s", "strpbrk_s", "strspn_s", "strcspn_s", "strfirstdiff_s", "strfirstsame_s",
              "strlastdiff_s", "strlastsame_s", "strprefix_s"],
         quick=dict(N=6, K=2, BosMode=0, QA=1), thorough=dict(N=7, K=3, BosMode=0, QA=1), props={"C10"}, flavours=("slack",)),
     "query2_small": dict(
-        fns=["strcmp_s", "strcasecmp_s", "strcoll_s", "strcmpfld_s", "wcscmp_s", "wcsncmp_s", "wcsicmp_s", "strnatcmp_s", "strnatcasecmp_s", "wcsnatcmp_s", "wcsnaticmp_s", "memcmp_s", "memcmp16_s", "memcmp32_s", "wmemcmp_s",
+        fns=["strcmp_s", "strcasecmp_s", "strcoll_s", "strcmpfld_s", "wcscmp_s", "wcsncmp_s", "wcsicmp_s", "wcscoll_s", "strnatcmp_s", "strnatcasecmp_s", "wcsnatcmp_s", "wcsnaticmp_s", "memcmp_s", "memcmp16_s", "memcmp32_s", "wmemcmp_s",
              "strstr_s", "strcasestr_s", "wcsstr_s", "strpbrk_s", "strspn_s", "strcspn_s", "strfirstdiff_s", "strfirstsame_s",
              "strlastdiff_s", "strlastsame_s", "strprefix_s"],
         quick=dict(N=5, K=2, BosMode=0, QA=0), thorough=dict(N=6, K=2, BosMode=1, QA=1), props={"C01", "C02", "C05"}, flavours=("slack",)),
